@@ -131,6 +131,16 @@ func declare(sh sShape) reflect.Type {
 		sf = append(sf, reflect.StructField{Name: "ID", Type: reflect.TypeOf(""), Tag: tagOf("", "st")})
 	case "named":
 		sf = append(sf, reflect.StructField{Name: "ID", Type: reflect.TypeOf(Label("")), Tag: tagOf("id", "st")})
+	case "tname-attr": // types whose names spell what a field's api tag could say
+		sf = append(sf, reflect.StructField{Name: "ID", Type: reflect.TypeOf(""), Tag: tagOf("id", "attr")})
+	case "tname-rel":
+		sf = append(sf, reflect.StructField{Name: "ID", Type: reflect.TypeOf(""), Tag: tagOf("id", "rel")})
+	case "tname-rel2":
+		sf = append(sf, reflect.StructField{Name: "ID", Type: reflect.TypeOf(""), Tag: tagOf("id", "rel,tx")})
+	case "tname-rel4":
+		sf = append(sf, reflect.StructField{Name: "ID", Type: reflect.TypeOf(""), Tag: tagOf("id", "rel,a,b,c")})
+	case "named-attr":
+		sf = append(sf, reflect.StructField{Name: "ID", Type: reflect.TypeOf(Label("")), Tag: tagOf("id", "attr")})
 	case "absent", "last":
 	}
 	for i, f := range sh.Fields {
@@ -270,7 +280,7 @@ func runStructCase(c sCaseT) sEventT {
 			}
 		})
 	}
-	if c.Shape.ID == "named" {
+	if c.Shape.ID == "named" || c.Shape.ID == "named-attr" {
 		try("setid-own-type", func() { // a value of the ID field's own type
 			w.Set("id", Label("i0"))
 			if w.Get("id") != "i0" {
